@@ -128,6 +128,24 @@ def gen(rng, tier):
         r.meta = {"map": {"bars": {a["id"]: b["id"] for a, b in zip(s.bars, r.bars)}, "nodes": dict(zip(s.nodes, r.nodes))}}
         cases.append({"Text": L.layout(rng, r), "kind": "renamed", "group": g, "role": "renamed", "names": r.meta["map"], "Weight": w, "Solve": True, "Assemble": True, "Error": ERR})
         cases.append({"Text": base, "kind": "end", "group": g, "role": "end", "Weight": False, "Solve": False, "ParseOnly": True})
+    # a load exactly on an even tenth of a bar and another within the slicing tolerance (1e-3) of it, plus a third elsewhere:
+    # every order of the three load lines
+    for k in range(2 if tier == "quick" else 12):
+        g = n + k
+        s = G.gen_beam(rng)
+        b = s.bars[0]
+        t0 = Fr(["0.5", "0.2", "0.4", "0.6", "0.1", "0.7"][k % 6])       # (exactly representable or not: the uniform cut may or may not be the same float)
+        d = Fr(["0.0008", "-0.0007", "0.0004"][k % 3])
+        s.loads = [{"kind": "c", "term": "fy", "local": True, "bar": b["id"], "t": t0, "v": Fr(-2000)},
+                   {"kind": "c", "term": "fy", "local": True, "bar": b["id"], "t": t0 + d, "v": Fr(-500)},
+                   {"kind": "c", "term": rng.choice(["fy", "mz"]), "local": True, "bar": b["id"], "t": Fr(rng.choice(["0.3", "0.85", "0.6125"])), "v": Fr(-700)}]
+        base = L.layout(rng, s, plain=True)
+        cases.append({"Text": base, "kind": "close-loads", "group": g, "role": "base", "Weight": False, "Solve": True, "Assemble": True, "Error": ERR, "Repre": True})
+        for perm in list(itertools.permutations(range(3)))[1:]:
+            t = s.copy()
+            t.loads = [s.loads[i] for i in perm]
+            cases.append({"Text": L.layout(rng, t, plain=True), "kind": "load-lines", "group": g, "role": "reordered", "Weight": False, "Solve": True, "Assemble": True, "Error": ERR})
+        cases.append({"Text": base, "kind": "end", "group": g, "role": "end", "Weight": False, "Solve": False, "ParseOnly": True})
     return cases
 
 
